@@ -80,6 +80,15 @@ CHECKS = {
              "(design invariants by TLC) and Trace_Refine re-derives every decision of 1100 real solves and the regularised-factor identity b - K x0 = eps S x0.",
          "5/C11", "Trusted base: TLC, Csc.tla, observer Schur complement and residuals.",
          "trace validation (TLC) of assembled layouts and solver KKT states against KKT.tla"),
+ "C13": ("exploration", "ConeAlgebra.tla lists the identities a scaled symmetric cone must satisfy (W z = W^-T s, W'W z = s, W / W^-1 mutually inverse and transpose-consistent, "
+             "KKT block = mul_Hs = W'W, Jordan product by definition / commutative / division, affine term lambda o lambda, corrector W^-T ds o W dz - sigma mu e, slack-recovery offset); "
+             "the real cone objects (nonnegative, second-order on both sides of the sparse-expansion threshold, PSD n <= 4) are scaled at thousands of generated points - centred, magnitudes "
+             "1e-4..1e4, within 1e-6..1e-2 of the boundary - every operator is evaluated once through a hook, the observer turns each identity into an <<error, tolerance>> pair with its own "
+             "Jordan products, and TLC decides the inequalities on ordered-float limbs.  This is numerical evidence at a stated, conditioning-dependent tolerance, not a proof: the identities "
+             "are real-analytic (square roots in every scaling) and admit no exact lattice, which is why the level is exploration.",
+         "I.9/C13", "Trusted base: TLC, FloatOrd, the observer's Jordan products and inner products, the hook sym_cone_battery. Points closer than 1e-6 (relative) to the boundary are not generated; "
+         "a wrong operator shows as an O(1e-2..1) relative error against tolerances <= 1e-5.",
+         "trace validation (TLC) of recorded operator evaluations against ConeAlgebra.tla; arithmetic by the observer"),
  "C15": (MC, "ConeStep.tla decides safe/bounded/tight in integer arithmetic for every interior integer point and direction of NN/zero/SOC cones (enumerated; MC_ConeStep checks convexity/monotonicity "
              "of the predicates), validates the backtracking protocol of exp/power/genpower line searches probe by probe against observer membership, composite steps (incl. PSD) and "
              "the shift-to-interior post-condition.", "5/C15",
@@ -99,7 +108,6 @@ CHECKS = {
          "trace validation (TLC) of constructed / solved sparse SDPs against Decomp.tla"),
 }
 NOT_APPLICABLE = [
- {"property_id": "C13", "reason": "Nesterov-Todd identities are real-analytic identities (square roots, matrix square roots) with no state, history or index structure for a TLA+ model to carry; TLC has no real arithmetic. The structural clause (KKT block = operator used for slack recovery) is decided under C11."},
  {"property_id": "C14", "reason": "Correctness of hand-derived gradients/Hessians/third-order terms of exp/power barriers is calculus over the reals with exp/log/pow; needs AD or interval arithmetic, not expressible in TLA+/TLC. Membership predicates and the backtracking protocol are covered under C15/C07."},
 ]
 PENDING = {}
